@@ -175,10 +175,10 @@ def macro_programs(draw):
             body_top.append(('op', None))
         elif macros:
             m = d.choice(macros)
-            if r < 80 or m['label_param']:
+            if r < 80 and not (m['label_param'] and r >= 55):
                 body_top.append(('call', m))
             else:
-                body_top.append(('rep', m))
+                body_top.append(('rep', m))   # (a macro with a label parameter is repeated at most once, see below)
     for g in pending_labels:
         body_top.append(('label', g))
     body_top.append(('op', None))
@@ -219,7 +219,9 @@ def macro_programs(draw):
             it = d.choice(POOL)
             if it in m['params'] or it in m['locals'] or it in glabels:
                 collisions += 1
-            root.append(['rep', ['n', d.int(0, 3), 'dec'] if not consts or d.bool() else ['id', d.choice(sorted(consts))], it, m['full'],
+            # a macro that declares a label through a parameter can be repeated once only (twice would declare it twice)
+            once = ['n', d.choice([1, 1, 1, 0]), 'dec'] if m['label_param'] else None
+            root.append(['rep', once or (['n', d.int(0, 3), 'dec'] if not consts or d.bool() else ['id', d.choice(sorted(consts))]), it, m['full'],
                          [top_arg(m, p, (it,)) for p in m['params']]])
     if not defs_first:
         for ns, it in def_items:
